@@ -939,6 +939,11 @@ def disp9(ctx) -> List[Ob]:
                             kind = "nested"
                             owner = A.unparse(anc.iter).split(".subregion.graph")[0]
                             good = val == owner  # regions inside X.subregion get X as parent
+                            # ... and only the regions among the members: a positive RegionBlock test
+                            gs = [g for g in A.ancestors(c) if isinstance(g, ast.If) and any(x is anc for x in A.ancestors(g))]
+                            if not (len(gs) == 1 and A.unparse(gs[0].test) == f"isinstance({tgt.id}, RegionBlock)" and any(b is c or any(a2 is b for a2 in A.ancestors(c)) for b in gs[0].body)):
+                                good = False
+                                val = val + " (not under a positive RegionBlock test)"
                 outk.add((c.args[1].value, kind if good else kind + ":wrong-value:" + val))
         return outk
 
